@@ -113,7 +113,8 @@ NewValues == { IntV(7), SetV(FALSE, <<B(<<"k">>, IntV(7))>>), OpqV("[ 1 2 ]") }
 \* derived from.  They must be refused whatever the document looks like, and leave it as it was.
 BadPaths == {"path:empty", "path:empty_segment", "path:trailing_dot", "path:leading_dot", "path:unterminated_quote",
              "path:dangling_escape", "path:not_identifier", "path:scope_in_segment"}
-BadValues == {"value:empty", "value:comment_only", "value:unclosed", "value:dangling_operator", "value:stray_close",
+BadValues == {"value:suite",       \* (an invalid value text recorded from the repository's own tests)
+              "value:empty", "value:comment_only", "value:unclosed", "value:dangling_operator", "value:stray_close",
               "value:two_statements"}
 BadOps(d) ==
     LET sels == 0..(IF Len(d.layers) >= 1 THEN 2 ELSE 1)
